@@ -351,7 +351,14 @@ def predicate_episodes(ctx: Ctx, rng: random.Random, count: int, pid: str) -> in
         bad = None
         for i in range(m):
             ui = [u[j] if j == i else 0.0 for j in range(m)]
-            wi = make("dualproj", torch.tensor(ui, dtype=torch.float64), ne, rg).weighting(J)
+            try:
+                wi = make("dualproj", torch.tensor(ui, dtype=torch.float64), ne, rg).weighting(J)
+            except Exception as ex:                                           # noqa: BLE001
+                ctx.violation(key + f":dualproj:raised:{i}",
+                              f"DualProj(pref={ui}, norm_eps={ne}, reg_eps={rg}) raised {type(ex).__name__}: {str(ex)[:150]} on {J.tolist()}",
+                              {"kind": "pred", "J": J.tolist(), "u": ui, "norm_eps": ne, "reg_eps": rg, "agg": "dualproj"})
+                bad = "raised"
+                continue
             bad = bad or kkt_predicate(J, ui, ne, rg, wi.tolist())
             rows += wi
         if bad is None and float((wU - rows).abs().max()) > 1e-9 * (1 + float(rows.abs().sum())):
